@@ -23,6 +23,8 @@ import FP.Model.Syntax
 import FP.Model.Literal
 import FP.Model.Text
 import FP.Model.FuncTable
+import FP.Model.Types
+import FP.Model.Conv
 import FP.Gen.Schema
 namespace FP.Model.Eval
 open FP FP.Go FP.Model FP.Model.Syntax
@@ -44,6 +46,8 @@ inductive E where
   | cmp (op : CmpOp) (l r : E)
   | arith (op : ArithOp) (l r : E)
   | concat (l r : E)
+  | isT (e : E) (t : FP.Gen.TypeParent.TypeSpecifier)   -- IsExpression
+  | asT (e : E) (t : FP.Gen.TypeParent.TypeSpecifier)   -- AsExpression
   | fn (name : String) (args : E)        -- FunctionExpression; args: argNil / argCons chain
   | argNil
   | argCons (e : E) (rest : E)
@@ -104,7 +108,8 @@ def modelledFns : List String :=
   ["empty", "exists", "count", "all", "allTrue", "anyTrue", "allFalse", "anyFalse", "where", "select",
    "first", "last", "tail", "skip", "take", "distinct", "isDistinct", "intersect", "exclude", "not", "iif",
    "length", "startsWith", "endsWith", "contains", "indexOf", "substring", "toChars", "replace",
-   "abs", "ceiling", "floor", "truncate"]
+   "abs", "ceiling", "floor", "truncate",
+   "toString", "toInteger", "toDecimal", "toBoolean", "convertsToString", "convertsToInteger", "convertsToDecimal", "convertsToBoolean"]
 
 def argCount : Ex → Nat
   | .argCons _ r => argCount r + 1
@@ -155,7 +160,14 @@ def compile (t : List FP.Gen.FuncTable.Entry) : Ex → Bool → CRes (E × Bool)
           else if o == "=" then .ok (.eq false cl cr, vr1)
           else if o == "!=" then .ok (.eq true cl cr, vr1)
           else .error                                        -- | in contains ~ !~ : errNotSupported
-  | .typ _ _ _, _ => .unmodelled                             -- is / as: FP.Model.Types, not assembled here
+  | .typ o e parts, vr =>
+    -- VisitTypeExpression: the operand (same visitor), then the type specifier (FP.Model.Types.resolveParts,
+    -- over the resolution functions translated from reflection/type_specifier.go)
+    (compile t e vr).bind fun (ce, vr1) =>
+      match resolveParts parts with
+      | .ok ts => if o == "is" then .ok (.isT ce ts, vr1) else if o == "as" then .ok (.asT ce ts, vr1) else .error
+      | .err _ => .error
+      | .panic => .unmodelled
 
 /-! ### evaluation -/
 
@@ -229,6 +241,48 @@ def mathOn (f : MathFn) (input : List Val) : Res (List Val) :=
 
 def anyIs (b : Bool) (input : List Val) : Bool := input.any (· == .bool b)
 
+/-- `Name()` of a System value -/
+def sysName : Val → String
+  | .bool _ => "Boolean" | .int _ => "Integer" | .dec _ => "Decimal" | .str _ => "String"
+  | .quantity _ _ => "Quantity" | .date _ => "Date" | .dateTime _ => "DateTime" | .time _ => "Time" | .other t => t
+
+/-- `reflection.TypeOf(item).Is(T)` for a System item -/
+def itemIs (v : Val) (t : FP.Gen.TypeParent.TypeSpecifier) : Bool := Model.is (typeOf (.sys (sysName v))) t
+
+def toCV : Val → Option Conv.CV
+  | .bool b => some (.bool b)
+  | .int i => some (.int i)
+  | .dec d => some (.dec d)
+  | .str s => (String.fromUTF8? (ByteArray.mk s.toArray)).map fun x => .str x.toList
+  | _ => none
+def ofCV : Conv.CV → Option Val
+  | .bool b => some (.bool b)
+  | .int i => some (.int i)
+  | .dec d => some (.dec d)
+  | .str s => some (.str (utf8 s))
+  | _ => none
+
+/-- a conversion function on a collection (impl/conversion.go): empty stays empty, several items are an error -/
+def convOn (t : Conv.Ty) (input : List Val) : Res (List Val) :=
+  match input with
+  | [] => .ok []
+  | [v] =>
+    match toCV v with
+    | none => .err "UNMODELLED"
+    | some cv =>
+      match Conv.convTo t cv with
+      | .ok none => .ok []
+      | .ok (some r) => (match ofCV r with | some x => .ok [x] | none => .err "UNMODELLED")
+      | .err e => .err e
+      | .panic => .panic
+  | _ => .err "not-singleton"
+
+def convertsOn (t : Conv.Ty) (input : List Val) : Res (List Val) :=
+  match input with
+  | [] => .ok []
+  | [v] => (match toCV v with | none => .err "UNMODELLED" | some cv => .ok [.bool (Conv.convertsTo t cv)])
+  | _ => .err "not-singleton"
+
 abbrev Ev := List Val → Res (List Val)
 
 def crit (p : Ev) (x : Val) : Res (List BItem) := mapRes (·.map toB) (p [x])
@@ -255,6 +309,14 @@ def apply0 (name : String) (input : List Val) : Res (List Val) :=
   | "ceiling" => mathOn .ceiling input
   | "floor" => mathOn .floor input
   | "truncate" => mathOn .truncate input
+  | "toString" => convOn .string input
+  | "toInteger" => convOn .integer input
+  | "toDecimal" => convOn .decimal input
+  | "toBoolean" => convOn .boolean input
+  | "convertsToString" => convertsOn .string input
+  | "convertsToInteger" => convertsOn .integer input
+  | "convertsToDecimal" => convertsOn .decimal input
+  | "convertsToBoolean" => convertsOn .boolean input
   | _ => .err "UNMODELLED"
 
 /-- functions with one argument `a` (given as its evaluation function).  Criteria (`where`,
@@ -327,6 +389,10 @@ def eval (env : Env) : E → List Val → Res (List Val)
     (eval env l input).bind fun lv => (eval env r input).bind fun rv => arithColl op lv rv
   | .concat l r, input =>
     (eval env l input).bind fun lv => (eval env r input).bind fun rv => concatColl lv rv
+  | .isT e t, input =>
+    (eval env e input).bind fun r => typeOpColl (fun x => [.bool (itemIs x t)]) r
+  | .asT e t, input =>
+    (eval env e input).bind fun r => typeOpColl (fun x => if itemIs x t then [x] else []) r
   | .argNil, _ => .err "UNMODELLED"
   | .argCons _ _, _ => .err "UNMODELLED"
   | .fn "unimplemented!" _, _ => .err "not-implemented"
